@@ -117,6 +117,14 @@ def run(tier, v):
                     nrows += 1
                     entries += 2 ** 32
     r2 = vlib.tlc("TV_C12", pid=PID, workers=16 if tier == "thorough" else 8, env={"TRACE": trace}, timeout=3000, heap="12g")
+    if tier == "thorough":
+        def mut(rows):
+            meta_row = rows[0]
+            k = next(i for i, r_ in enumerate(rows) if r_.get("t") == "score")
+            r_ = json.loads(json.dumps(rows[k]))
+            r_["breaks"][0]["q"] = 99          # distance 0 no longer scores 1.0
+            return [meta_row, r_], "the recorded quality of distance 0 is lowered to 0.99"
+        v.binding.append(vlib.binding_demo("TV_C12", trace, mut, PID, workers=4, timeout=900, heap="6g"))
     for b in r2.lines.get("BAD", []):
         v.violation({"part": "table", "entry": b})
     for k in r2.lines.get("KNOWN", []):
